@@ -1,5 +1,5 @@
 #!/usr/bin/env python3
-"""prints a markdown summary of every recorded finding and every fix (from known_findings.json and findings.d/*.json)"""
+"""prints a markdown summary of every recorded finding and every fix (from known_findings.json)"""
 import glob, json, os, re, subprocess
 V = os.path.dirname(os.path.dirname(os.path.abspath(__file__)))
 files = [os.path.join(V, "known_findings.json")] + sorted(glob.glob(os.path.join(V, "findings.d", "*.json")))
